@@ -179,3 +179,68 @@ def agg_variant_of(du, op, depth=0):
     if rv["k"] == "use":
         return agg_variant_of(du, rv["a"], depth + 1)
     return None
+
+
+def lin_offset(body, du, op, depth=0):
+    """(origin, k) when the operand equals origin + k through copies, casts and additions of constants;
+    origin is ('param', local) | ('capture', name) | ('call', callee, bb) | ('field', name, origin) | ('const', n) | ('unknown', why)"""
+    if depth > 12:
+        return (("unknown", "depth"), 0)
+    if "c" in op:
+        n = const_int(op["c"])
+        return (("const", n), 0) if n is not None else (("unknown", "const"), 0)
+    pl = op.get("cp") or op.get("mv")
+    return _lin_place(body, du, pl, depth)
+
+
+def _lin_place(body, du, pl, depth):
+    l = pl["l"]
+    proj = [e for e in pl["p"]]
+    names = [e.get("name") for e in proj if isinstance(e, dict) and "name" in e]
+    if 1 <= l <= body.argc:
+        if body.kind == "Closure" and l == 1 and names:
+            return (("capture", names[0]) if len(names) == 1 else ("field", names[-1], ("capture", names[0])), 0)
+        if not names:
+            return (("param", l), 0)
+        return (("field", names[-1], ("param", l)), 0)
+    defs = du.defs.get(l, [])
+    if len(defs) != 1:
+        return (("unknown", "defs=%d" % len(defs)), 0)
+    d = defs[0]
+    if d[0] == "call":
+        if names:
+            return (("field", names[-1], ("call", callee_of(d[2]), d[1])), 0)
+        return (("call", callee_of(d[2]), d[1]), 0)
+    if d[0] != "assign":
+        return (("unknown", d[0]), 0)
+    rv = d[3]["rv"]
+    if d[3]["place"]["p"]:
+        return (("unknown", "partial"), 0)
+    if rv["k"] == "binop" and rv["op"] in ("AddWithOverflow", "Add", "AddUnchecked"):
+        if rv["op"] == "AddWithOverflow" and names != ["0"]:
+            return (("unknown", "overflow-flag"), 0)
+        ka = const_int(rv["b"].get("c")) if "c" in rv["b"] else None
+        if ka is not None:
+            o, k = lin_offset(body, du, rv["a"], depth + 1)
+            return (o, k + ka)
+        kb = const_int(rv["a"].get("c")) if "c" in rv["a"] else None
+        if kb is not None:
+            o, k = lin_offset(body, du, rv["b"], depth + 1)
+            return (o, k + kb)
+        return (("unknown", "add"), 0)
+    if rv["k"] == "binop" and rv["op"] in ("SubWithOverflow", "Sub"):
+        ka = const_int(rv["b"].get("c")) if "c" in rv["b"] else None
+        if ka is not None:
+            o, k = lin_offset(body, du, rv["a"], depth + 1)
+            return (o, k - ka)
+        return (("unknown", "sub"), 0)
+    if rv["k"] in ("use", "cast") and not names:
+        return lin_offset(body, du, rv["a"], depth + 1)
+    if rv["k"] == "use" and names:
+        o, k = lin_offset(body, du, rv["a"], depth + 1)
+        return (("field", names[-1], o), 0)
+    if rv["k"] == "agg" and names and rv["ak"] in ("adt", "tuple"):
+        flds = rv.get("fields") or [str(i) for i in range(len(rv["ops"]))]
+        if names[0] in flds:
+            return lin_offset(body, du, rv["ops"][flds.index(names[0])], depth + 1)
+    return (("unknown", rv["k"]), 0)
